@@ -6,6 +6,7 @@ import PdbModel.Basic
 import PdbModel.Hier
 import PdbModel.Level
 import PdbModel.DriverC12
+import PdbModel.DriverC08
 namespace PdbModel
 
 def parseLevels (t : String) : Option (List ErrorLevel) :=
@@ -37,6 +38,7 @@ def handle (line : String) : String :=
   | ["-"] => "-"
   | "c07" :: rest => (handleC07 rest).getD "BAD-REQUEST"
   | "c12" :: rest => (handleC12 rest).getD "BAD-REQUEST"
+  | "c08" :: rest => (handleC08 rest).getD "BAD-REQUEST"
   | _ => "BAD-REQUEST"
 
 end PdbModel
